@@ -106,8 +106,10 @@ PoissonDistribution<RealType>::operator()(Generator& rng) -> result_type
         } while (p > 1);
         return static_cast<result_type>(k - 1);
     }
-    // Use Gaussian approximation rounded to nearest integer
-    return result_type(sample_normal_(rng) + real_type(0.5));
+    // Use Gaussian approximation rounded to nearest integer, clamped at zero:
+    // a deviate in the lower tail must not be converted to an unsigned value
+    real_type const sample = sample_normal_(rng) + real_type(0.5);
+    return sample > 0 ? static_cast<result_type>(sample) : result_type{0};
 }
 //---------------------------------------------------------------------------//
 }  // namespace celeritas
